@@ -51,6 +51,10 @@ def _eval_assumptions(S_decl, vals):
 
 def gen_inputs(interp, shape, rng, n_samples, max_len=10, int_range=14, exhaustive_len=None):
     """yield concrete input dicts satisfying the shape's assumptions"""
+    if getattr(shape, 'gen', None) is not None:
+        for _ in range(n_samples):
+            yield shape.gen(rng)
+        return
     S = _decls(interp, shape)
     names = list(S.decls.items())
     tried = 0
